@@ -67,6 +67,8 @@ def install():
         from twisted.python import log as tlog
         # swallow "Unhandled error in Deferred" noise; checks look at results explicitly
         tlog.theLogPublisher.observers[:] = []
+        from twisted.logger import globalLogBeginner
+        globalLogBeginner.beginLoggingTo([lambda ev: None], redirectStandardIO=False, discardBuffer=True)
     except Exception:
         pass
     try:
